@@ -63,9 +63,24 @@ func runSolver(ctx context.Context, sp solverSpec, file string, ms int) solveRes
 }
 
 // discharge decides one obligation by racing the solvers in two stages.
+func (o *Obligation) fullScript() string {
+	if o.Script != "" {
+		return o.Script
+	}
+	return o.Prefix + o.Tail
+}
+
 func discharge(o *Obligation, dir string, timeoutMs int, thorough bool) {
 	if o.Status == "too-large" {
 		return
+	}
+	if o.Script == "" {
+		o.Script = o.Prefix + o.Tail
+		defer func() {
+			if o.Status == "unsat" || (o.Expect == "sat" && o.Status != "unsat") {
+				o.Script = ""
+			}
+		}()
 	}
 	if strings.Contains(o.Script, "(assert false)\n(check-sat)") && o.Expect == "unsat" {
 		// goal literally true
@@ -179,8 +194,101 @@ func firstLines(s string, n int) string {
 	return strings.Join(ls, " | ")
 }
 
+// dischargeBatch decides a group of goals that share one prefix with a single incremental solver run; whatever
+// is not `unsat` there is decided again on its own (with the full solver race and a model).
+func dischargeBatch(group []*Obligation, dir string, timeoutMs int) {
+	var b strings.Builder
+	b.WriteString(group[0].Prefix)
+	for _, o := range group {
+		b.WriteString("(push 1)\n(assert " + o.Neg + ")\n(check-sat)\n(pop 1)\n")
+	}
+	file := filepath.Join(dir, fmt.Sprintf("batch_%p.smt2", group[0]))
+	if err := os.WriteFile(file, []byte(b.String()), 0o644); err != nil {
+		return
+	}
+	defer os.Remove(file)
+	per := timeoutMs
+	if per > 2500 {
+		per = 2500
+	}
+	cctx, cancel := context.WithTimeout(context.Background(), time.Duration(per*len(group)+3000)*time.Millisecond)
+	defer cancel()
+	cmd := exec.CommandContext(cctx, "z3-new", fmt.Sprintf("-t:%d", per), file)
+	var out bytes.Buffer
+	cmd.Stdout = &out
+	t0 := time.Now()
+	_ = cmd.Run()
+	el := time.Since(t0).Milliseconds()
+	lines := strings.Split(strings.TrimSpace(out.String()), "\n")
+	i := 0
+	for _, ln := range lines {
+		ln = strings.TrimSpace(ln)
+		if ln != "sat" && ln != "unsat" && ln != "unknown" && ln != "timeout" {
+			continue
+		}
+		if i >= len(group) {
+			break
+		}
+		if ln == "unsat" {
+			group[i].Status = "unsat"
+			group[i].Solver = "z3-new(batch)"
+			group[i].Millis = el / int64(len(group))
+		}
+		i++
+	}
+}
+
 func dischargeAll(obls []*Obligation, dir string, timeoutMs, workers int, thorough bool) {
 	os.MkdirAll(dir, 0o755)
+	// phase 1: batches of goals with an identical prefix
+	groups := map[string][]*Obligation{}
+	var order []string
+	for _, o := range obls {
+		if o.Expect != "unsat" || o.Status != "" || o.Prefix == "" || thorough {
+			continue
+		}
+		if _, ok := groups[o.Prefix]; !ok {
+			order = append(order, o.Prefix)
+		}
+		groups[o.Prefix] = append(groups[o.Prefix], o)
+	}
+	{
+		gch := make(chan []*Obligation)
+		var gwg sync.WaitGroup
+		for i := 0; i < workers; i++ {
+			gwg.Add(1)
+			go func() {
+				defer gwg.Done()
+				for g := range gch {
+					dischargeBatch(g, dir, timeoutMs)
+				}
+			}()
+		}
+		for _, k := range order {
+			g := groups[k]
+			if len(g) < 2 {
+				continue
+			}
+			for len(g) > 0 {
+				n := len(g)
+				if n > 40 {
+					n = 40
+				}
+				gch <- g[:n]
+				g = g[n:]
+			}
+		}
+		close(gch)
+		gwg.Wait()
+	}
+	// phase 2: everything still open, one by one
+	var rest []*Obligation
+	for _, o := range obls {
+		if o.Status == "" {
+			rest = append(rest, o)
+		}
+	}
+	obls = rest
 	ch := make(chan *Obligation)
 	var wg sync.WaitGroup
 	for i := 0; i < workers; i++ {
